@@ -318,8 +318,13 @@ func (c *Conn) recDeadline(kind string, t time.Time) {
 	c.mu.Unlock()
 }
 
+// Like real net.Conn implementations (and net.Pipe), the Set*Deadline methods
+// fail once the connection has been closed.
 func (c *Conn) SetDeadline(t time.Time) error {
 	c.recDeadline("rw", t)
+	if c.IsClosed() {
+		return io.ErrClosedPipe
+	}
 	c.rdl.set(t)
 	c.wdl.set(t)
 	return nil
@@ -327,12 +332,18 @@ func (c *Conn) SetDeadline(t time.Time) error {
 
 func (c *Conn) SetReadDeadline(t time.Time) error {
 	c.recDeadline("r", t)
+	if c.IsClosed() {
+		return io.ErrClosedPipe
+	}
 	c.rdl.set(t)
 	return nil
 }
 
 func (c *Conn) SetWriteDeadline(t time.Time) error {
 	c.recDeadline("w", t)
+	if c.IsClosed() {
+		return io.ErrClosedPipe
+	}
 	c.wdl.set(t)
 	return nil
 }
